@@ -107,6 +107,17 @@ def distribute(
                 )
                 break
 
+    # These computations must fit on the agent they are bound to.
+    fixed_load = defaultdict(lambda: 0)
+    for agt_name, fixed_footprint in fixed_mapping.values():
+        fixed_load[agt_name] += fixed_footprint
+    for agent in agentsdef:
+        if fixed_load[agent.name] > agent.capacity:
+            raise ImpossibleDistributionException(
+                f"Impossible Distribution, not enough capacity on {agent.name} "
+                f"for the computations with a hosting cost of 0 on it"
+            )
+
     # Sort computation by footprint, but add a random element to avoid sorting on names
     computations = [
         (computation_memory(n), n, None, random.random())
